@@ -15,7 +15,7 @@ decl.default_props(["C01"])
 from . import c01_registry  # noqa: E402,F401
 decl.default_props([])
 for _m in ("c02_chain", "c05_quantity", "c06_converters", "c14_groups", "c17_helpers", "c18_errors", "c08_names", "c15_qto",
-           "c10_defs", "c07_eval", "c09_format", "c16_numpy", "c19_measurement", "c20_standards", "c13_caches"):
+           "c10_defs", "c03_addsub", "c07_eval", "c09_format", "c16_numpy", "c19_measurement", "c20_standards", "c13_caches"):
     try:
         __import__(f"contracts.{_m}")
     except ModuleNotFoundError as e:
@@ -66,12 +66,19 @@ P("C02", "other",
   "exact ratios, type preservation, ulp bound (float), path independence on the default registry.",
   standins=["standins.c02_factors", "standins.c02_warmcache"])
 P("C03", "other",
-  "Deductive kernel: the ordering operators (PlainQuantity.compare: DimensionalityError iff dimensions differ, otherwise the "
-  "comparison of root-unit magnitudes) and the registry-identity guard _check. Bounded: covariance of every arithmetic operator "
-  "under re-expression of the operands in other units, exact in a Fraction registry, over an exhaustive operand catalogue x 27 "
-  "operator forms; dimension errors (also with contexts active); bare-number rule; in-place forms.",
-  "_add_sub / _mul_div / __pow__ (seven-branch offset logic) are not under contract; they rest on the bounded stand-ins.",
-  MIXED + ": proved = ordering raises iff dimensions differ; bounded = unit covariance of + - * / // % ** and in-place twins.",
+  "Deductive: _add_sub and _mul_div for two multiplicative quantities of one registry, proved for all operands and all "
+  "well-formed registries: + and - raise DimensionalityError IF AND ONLY IF the dimensionalities differ, otherwise the physical "
+  "value of the result is the sum / difference of the operands' physical values in each of the three unit-selection branches; "
+  "* and / give the product / quotient of the physical values and add / subtract the dimension exponents (Lean-checked lemmas "
+  "on finite sums and products over the definition table) - hence the result does not depend on the units the operands are "
+  "expressed in. Also the ordering operators (compare) and the registry-identity guard _check. Bounded: the same covariance "
+  "exact in a Fraction registry over an exhaustive operand catalogue x 27 operator forms (including //, %, **, unary, "
+  "in-place forms, bare numbers, offset units), dimension errors also with contexts active.",
+  "Assumed: the Quantity constructor (stores magnitude and units), Quantity.to, _get_non_multiplicative_units / _ok_for_muldiv / "
+  "_get_delta_units of the facets under the all-multiplicative premise; the decorators check_implemented / ireduce_dimensions "
+  "(pass-through for scalar operands with the auto-reduce options off). //, %, ** and the in-place twins are bounded only.",
+  MIXED + ": proved = + - * / on multiplicative quantities (error iff dimensions differ; physical value; dimensions); bounded = "
+  "the other operators, offset units, numeric types.",
   standins=["standins.c03_arith", "standins.c03_context"])
 P("C04", "proof",
   "Every UnitsContainer operation on the C04 chain is verified against a full-view contract (exponent arithmetic for all keys, "
@@ -166,12 +173,15 @@ P("C14", "other",
   "Group/System objects are not under contract.",
   MIXED + ": proved = default_system setter; bounded = everything else.", standins=["standins.c14_systems"])
 P("C15", "other",
-  "Deductive: to_reduced_units / ito_reduced_units return / perform exactly quantity.to(X) / ito(X) or leave the input alone, so "
-  "by the conversion contracts (C01/C02) dimensionality and physical value are preserved whatever X was chosen. Bounded: "
+  "Deductive: Quantity.to / ito / _convert_magnitude are verified (not assumed): DimensionalityError iff the dimensionalities "
+  "differ, otherwise the physical value and the dimensionality are preserved, the operand of to() is untouched and ito() leaves "
+  "the object in exactly the units asked for; to_reduced_units / ito_reduced_units return / perform exactly quantity.to(X) / "
+  "ito(X) or leave the input alone, so value and dimensionality are preserved whatever X was chosen. Bounded: "
   "to_root/base/reduced/compact/preferred and ito_ twins on all containers of <= 4 units from 3 dimension classes with "
   "exponents -3..3, exact in a Fraction registry; compact window; special magnitudes; in-place == functional under contexts.",
-  "Quantity.to / ito / dimensionless / _get_reduced_units carry assumed contracts; to_compact / to_preferred are bounded only.",
-  MIXED + ": proved = value preservation of the reduced-units pair over assumed to/ito; bounded = the other helpers and clauses.",
+  "Assumed: the Quantity constructor, to_units_container on a container / on the literal {}, dimensionless, _get_reduced_units "
+  "(which units are merged is bounded); to_compact / to_preferred / to_root_units / to_base_units are bounded only.",
+  MIXED + ": proved = value and dimension preservation of to / ito and of the reduced-units pair; bounded = the other helpers and clauses.",
   standins=["standins.c15_rewrite", "standins.c15_context"])
 P("C16", "other",
   "Deductive: PlainUnit.__init__ / __pow__ and the output-unit table get_op_output_unit for the power-like operations. Bounded: "
